@@ -119,6 +119,12 @@ fn documented(m: &mut Mon) {
         let _ = empty.evaluate_v(vec![1.0]).count();
     });
     rec(m, "empty-evaluate_v", r);
+    // not documented either way, recorded only: finite knots whose abscissae are not increasing
+    let r = guard(|| {
+        constrained_spline(&[k(0.0, 1.0), k(0.0, 2.0), k(-1.0, 0.5), k(3.0, 0.0)]);
+    });
+    rec(m, "spline-non-increasing-x(not judged)", r);
+    let _ = Knot::new(1.0, 2.0);
     let z = IntOfLogPoly4::default();
     let f = Piecewise { segments: vec![Segment { end: f64::NAN, poly: z }, Segment { end: 2.0, poly: z }] };
     let g = Piecewise { segments: vec![Segment { end: 1.0, poly: z }, Segment { end: 2.0, poly: z }] };
